@@ -22,8 +22,8 @@ PROP = {
                   "name the table knows without a value for the type' (both: canonical name, no addresses). "
                   "CNAME answers written in upper case and trailing-dot names are outside the generated domain.",
     "tests": [
-        ("TestVFC06Table", (6000, 30000)),
-        ("TestVFC06Cycles", (1500, 6000)),
+        ("TestVFC06Table", (20000, 100000)),
+        ("TestVFC06Cycles", (4000, 20000)),
     ],
     "plain": ["TestVFC06DocExamples"],
     "shards": (2, 16),
